@@ -15,8 +15,8 @@ namespace vu
 using namespace SymEngine;
 using namespace vs;
 
-enum { T_INT = 0, T_RAT, T_CPLX, T_DBL, T_CDBL, T_INF, T_NAN, T_SYM, T_MUL, T_ADD, T_ADD2, T_POW, T_POWQ, T_SIN, T_FSET, T_IVAL, T_REL, T_UINT, T_MINT, T_MINT0, T_MAT, T_URAT, T_COUNT };
-static const char *const tnames[] = {"Integer", "Rational", "Complex", "RealDouble", "ComplexDouble", "Infty", "NaN", "Symbol", "Mul", "Add", "Add(reversed)", "Pow", "Pow(rational)", "Sin", "FiniteSet", "Interval", "Lt", "UIntPoly", "MIntPoly{x,y}", "MIntPoly(constant, symbolic varset)", "ImmutableDenseMatrix", "URatPoly"};
+enum { T_INT = 0, T_RAT, T_CPLX, T_DBL, T_CDBL, T_INF, T_NAN, T_SYM, T_MUL, T_ADD, T_ADD2, T_POW, T_POWQ, T_SIN, T_FSET, T_IVAL, T_REL, T_UINT, T_MINT, T_MINT0, T_MAT, T_URAT, T_IVALINF, T_ADDK, T_MULK, T_COUNT };
+static const char *const tnames[] = {"Integer", "Rational", "Complex", "RealDouble", "ComplexDouble", "Infty", "NaN", "Symbol", "Mul", "Add", "Add(reversed)", "Pow", "Pow(rational)", "Sin", "FiniteSet", "Interval", "Lt", "UIntPoly", "MIntPoly{x,y}", "MIntPoly(constant, symbolic varset)", "ImmutableDenseMatrix", "URatPoly", "Interval(infinite end)", "Add(x + number of any kind)", "Mul(number of any kind * x)"};
 
 // numeric slot bound
 static const long B = 3;
@@ -76,6 +76,21 @@ inline RCP<const Basic> build(int t, const std::string &tag)
             vec_uint z(vars.size(), 0);
             d[z] = sym_integer(nm(tag, "c"), -B, B, true)->as_integer_class();
             return MIntPoly::from_dict(vars, std::move(d));
+        }
+        case T_IVALINF: { // one infinite end, both open/closed flags symbolic choices
+            RCP<const Integer> e = sym_integer(nm(tag, "e"), -B, B, true);
+            bool left = verif_choice(nm(tag, "infleft").c_str(), 2), lo = verif_choice(nm(tag, "lopen").c_str(), 2), ro = verif_choice(nm(tag, "ropen").c_str(), 2);
+            return left ? interval(NegInf, e, lo, ro) : interval(e, Inf, lo, ro);
+        }
+        case T_ADDK: { // x + k with k of any finite number kind (same value in different kinds is possible)
+            int kk = (int)verif_choice(nm(tag, "kk").c_str(), 4);
+            RCP<const Number> k = kk == 3 ? (RCP<const Number>)real_double((double)(long)verif_choice(nm(tag, "kd").c_str(), 3)) : sym_number(kk, tag + "k", 2, 2, true);
+            return add(x, k);
+        }
+        case T_MULK: {
+            int kk = (int)verif_choice(nm(tag, "kk").c_str(), 4);
+            RCP<const Number> k = kk == 3 ? (RCP<const Number>)real_double((double)(long)verif_choice(nm(tag, "kd").c_str(), 3)) : sym_number(kk, tag + "k", 2, 2, true);
+            return mul(k, x);
         }
         case T_MAT:
             return immutable_dense_matrix(1, 2, {sym_integer(nm(tag, "m0"), -B, B, true), sym_integer(nm(tag, "m1"), -B, B, true)});
